@@ -374,6 +374,12 @@ func systematicPkgCases(id *int, profile, scratch string, rng *rand.Rand, tier s
 			c.Entries = []Entry{{Type: "tree", Src: "src/sub", Dst: d, Fi: Fi{Owner: "app", Group: "app"}, HasFi: true}}
 			add(c, smallTree(), "tree-fsowned")
 		}
+		// a directory the configuration DECLARES is shipped as declared, also at a path the distribution owns
+		for _, d := range []string{"/var/cache", "/usr/local/bin", "/opt", "/etc", "/usr/share/doc"} {
+			c := baseCfg("fsdirpkg")
+			c.Entries = []Entry{plain, {Type: "dir", Dst: d, Fi: Fi{Owner: "app", Group: "grp", Mode: 0o750}, HasFi: true}, {Type: "dir", Dst: d + "/fsdirpkg"}}
+			add(c, smallTree(), "dir-fsowned")
+		}
 		// typed entries with expand: true (no reference in the values: nothing may change, least of all the type)
 		for _, ty := range []string{"config", "config|noreplace", "config|missingok", "ghost", "doc", "symlink", "dir"} {
 			c := baseCfg("expandpkg")
